@@ -388,7 +388,11 @@ Section Stuck.
       pose proof (k_spend c s I8 y z Hz) as Hzm.
       pose proof (proj1 (In_members c y z) Hzm) as (Hzl & Hzp & Hz0).
       pose proof (k_some c s I8 y z Hzm Hdid) as Hnn.
-      destruct (q_spcp c s IQ y z Ht Hz) as [Hfz|Hcz]; [congruence|].
+      destruct (q_spcp c s IQ y z Ht Hz) as [Hfz|[Hcz|(Ezs & Ehz & Etz & _)]]; [congruence| |].
+      2:{ (* z has consumed the cancellation and is tidying its own handlers *)
+          pose proof (quiescent_sdtask c s z Hq Hzl Ezs) as Hez. unfold sdtask_enabled in Hez. rewrite Ehz in Hez.
+          apply (IH z); [destruct (wf_parent c z W Hzl Hz0) as [Hpl _]; lia|apply sched_id_of; auto|right; exact Etz|].
+          exists (hcp (Hd s z)). exact Hez. }
       unfold hfin in Hzf. destruct (hs (Hd s z)) eqn:Ehz; try discriminate.
       + contradiction.
       + apply (dead_no_hcreated c h s W Hr Hq z Ehz).
